@@ -236,7 +236,7 @@ def _is_index_source(e):
             if isinstance(y, Field):
                 break
             y = y.x
-        # (some(next(iter))).0 [.0]
+        # (try(next(iter))).0 [.0]
         base = x.x
         while isinstance(base, (Named,)):
             base = base.x
